@@ -380,6 +380,8 @@ def sigapi_cases(draw):
     # for the message as passed: body + 4 flag bytes in preimage mode
     blen = draw(st.sampled_from([None, None, None, 0, 1, 27, 28, 29, 31, 32, 33, 60, 64]))
     body = draw(gen.sized_binary(200)) if blen is None else draw(st.binary(min_size=blen, max_size=blen))
+    if blen is None and draw(st.integers(0, 4)) == 0:
+        body = draw(gen.lookalike_bytes())  # hex text, whitespace or NUL at the ends, literals: a message is opaque bytes
     case = {
         "msg": body.hex(),
         "flag": flag,
